@@ -201,7 +201,8 @@ fn judge(case: &Case, oc: &Outcome, reference: Option<&Outcome>) -> Vec<Verdict>
                     v.push(Verdict { class: "output-order", sig: "x-req-idx".into(), detail: format!("response at position {k} answers request {i}") });
                     return v;
                 }
-                let bodiless = case.reqs[i].method == "HEAD" || r.status == 204 || r.status == 304;
+                // (a request beyond the generated list is the malformed tail, whose head may be valid)
+                let bodiless = case.reqs.get(i).map(|q| q.method == "HEAD").unwrap_or(false) || r.status == 204 || r.status == 304;
                 if !bodiless {
                     let mut want = rec.resp_yielded.clone();
                     if let Some(p) = case.progs.get(i) {
@@ -380,6 +381,18 @@ pub fn gen_case(rng: &mut Rng) -> Case {
     let mut stream = vec![];
     for (i, r) in reqs.iter().enumerate() {
         stream.extend_from_slice(&r.bytes(i));
+    }
+    // sometimes the pipeline ends in a malformed request: the 4xx the server produces for it (and
+    // everything queued before it) must still reach a socket that accepts bytes only in pieces
+    // (only with half-close allowed: with `h1_allow_half_closed(false)` a parse error is handled
+    // like a peer EOF and aborts whatever is in flight — see DESIGN.md section 11)
+    if cfg.half_closed && rng.chance(1, 4) {
+        stream.extend_from_slice(*rng.pick(&[
+            &b"GET /bad HTTP/1\r\nHost: t\r\n\r\n"[..],
+            &b"POST /bad HTTP/1.1\r\nHost: t\r\nContent-Length: 3\r\nTransfer-Encoding: chunked\r\n\r\n0\r\n\r\n"[..],
+            &b"POST /bad HTTP/1.1\r\nHost: t\r\nTransfer-Encoding: chunked\r\n\r\nzz\r\n"[..],
+            &b"GET /bad HTTP/1.1\r\nHost: t\r\nContent-Length: 1\r\nContent-Length: 2\r\n\r\nab"[..],
+        ]));
     }
     let cuts = rng.cuts(stream.len(), 10);
     let segs = split_at_cuts(&stream, &cuts);
